@@ -26,7 +26,8 @@ TIERS = {
     "quick": {"runs": 230, "wall_cap": 210},
     "thorough": {"runs": 5000, "wall_cap": 3300, "reexecute": 60},
 }
-FAILS = ["syntax", "type", "runtime", "runtime_opaque", "convert", "missing_import", "post_out", "lazy_missing_import", "lazy_broken_import"]
+FAILS = ["syntax", "type", "runtime", "runtime_opaque", "convert", "missing_import", "post_out", "lazy_missing_import", "lazy_broken_import",
+         "strict_only_field", "strict_only_env"]
 SPELL = ["plain", "dot", "dotdot", "redundant", "abs"]
 
 
@@ -66,6 +67,21 @@ def generate(rng, tier, idx):
             f["imports"].append({"target": j, "spelling": rng.weighted([("plain", 4), ("dot", 3), ("dotdot", 2), ("redundant", 1), ("abs", 1)])})
             if rng.chance(15):  # same file imported twice under another spelling
                 f["imports"].append({"target": j, "spelling": rng.choice(SPELL)})
+    if n >= 3 and len(dirs) >= 2 and rng.chance(25):
+        # two libraries with the same base name and different shapes in different directories, both imported by the first file
+        a, b = n - 1, n - 2
+        d1, d2 = rng.sample(dirs, 2)
+        for k, d in ((a, d1), (b, d2)):
+            files[k]["path"] = (d + "/" if d else "") + "shared.ucg"
+            if files[k]["role"] not in ("lib", "dual"):
+                files[k]["role"], files[k]["fail"] = "lib", None
+        files[a]["shape"], files[b]["shape"] = "int", "str"
+        files[0]["imports"] = [imp for imp in files[0]["imports"] if imp["target"] not in (a, b)] + [
+            {"target": a, "spelling": rng.choice(SPELL)}, {"target": b, "spelling": rng.choice(SPELL)}]
+        if files[0]["role"] == "lib":
+            files[0]["role"], files[0]["out"] = "entry", "json"
+        if files[b]["imports"]:
+            files[b]["imports"] = [imp for imp in files[b]["imports"] if imp["target"] != a]
     world = {"files": files, "strict": not rng.chance(12), "fault": None, "fsize": None, "creation": rng.shuffle(list(range(n)))}
     if rng.chance(25):
         outs = [i for i, f in enumerate(files) if f["out"]]
@@ -161,6 +177,12 @@ def render_file(world, i, root_abs):
         L.append('let broken = idf(1) + idf("a");')
     elif fail == "missing_import":
         L.append('let broken = import "./does-not-exist-%s.ucg";' % f["uid"])
+    elif fail == "strict_only_field":
+        # fails only under strict lookups (the default); with --no-strict the missing field is NULL and the file builds
+        L.append("let idf = func (x) => x;")
+        L.append("let maybe_null = idf({present = 1}).absent;")
+    elif fail == "strict_only_env":
+        L.append("let maybe_unset = env.UCGSIM_UNSET_%s;" % f["uid"].upper())
     elif fail == "lazy_missing_import":
         # never evaluated: only the ahead-of-time link step of the build notices the missing file
         L.append('let never_called = func (x) => (import "./does-not-exist-%s.ucg").id;' % f["uid"])
